@@ -20,7 +20,14 @@ PROPS = {
     "C19": ["DisconnectEvents", "ConnectEvents", "EventOrder", "BacklogExact", "BacklogAtEvent", "HandlerHung"],
     # multi-store crash points (used by the C08 check of the HeaderStore family)
     "C08": ["CrashRecoverOpens", "CrashChainIntact", "CrashFilterConsistent"],
+    # slice of C04 (used by the C04 check of the Client family, run_slice_c04): the sync peer the client reports is
+    # none or a connected peer - a client whose sync peer has left asks nobody for headers and ignores everybody else's
+    "C04": ["SyncPeerIsConnected"],
 }
+# fault parameters of a headers message: 1 = the batch write fails; 20+j / 30+j = the j-th RollbackLastBlock call of the
+# message on the block-header / filter-header store fails (only explored where MaxFaults > 0)
+ALL_FAULTS = "{0, 1, 21, 22, 23, 31, 32, 33}"
+ROLLBACK_FAULTS = "{0, 21, 22, 23, 31, 32, 33}"
 CODE_VERSION = json.load(open(os.path.join(SPEC, "code_version.json")))
 CONFIGS = {
     "quick": [dict(universe="u1", MaxMsgs=3, MaxRestarts=0, MaxFaults=0, MaxCrashes=0)],
@@ -30,13 +37,21 @@ CONFIGS = {
                  dict(universe="quick", MaxMsgs=4, MaxRestarts=1, MaxFaults=0, MaxCrashes=0),
                  dict(universe="stale", MaxMsgs=3, MaxRestarts=1, MaxFaults=0, MaxCrashes=0),
                  dict(universe="cpalt", MaxMsgs=3, MaxPeerEv=3, MaxRestarts=1, MaxFaults=0, MaxCrashes=0)],
+    # slice of C04 (run_slice_c04): SyncPeerIsConnected over u1 / over u1 with the full non-candidate dimension
+    "c04": [dict(universe="u1", MaxMsgs=3, MaxRestarts=0, MaxFaults=0, MaxCrashes=0)],
+    "c04thorough": [dict(universe="u1l", MaxMsgs=3, MaxRestarts=1, MaxFaults=0, MaxCrashes=0)],
     "deep": [dict(universe="deep", MaxMsgs=3, MaxRestarts=0, MaxFaults=0, MaxCrashes=0)],
     "retarget": [dict(universe="retarget", MaxMsgs=3, MaxRestarts=0, MaxFaults=0, MaxCrashes=0)],
     "stale": [dict(universe="stale", MaxMsgs=3, MaxRestarts=0, MaxFaults=0, MaxCrashes=0)],
     "cpalt": [dict(universe="cpalt", MaxMsgs=3, MaxPeerEv=1, MaxRestarts=0, MaxFaults=0, MaxCrashes=0)],
     "crash": [dict(universe="u1", MaxMsgs=2, MaxRestarts=0, MaxFaults=0, MaxCrashes=1)],
     "crash3": [dict(universe="u1", MaxMsgs=3, MaxRestarts=0, MaxFaults=0, MaxCrashes=1)],
-    "faults": [dict(universe="u1", MaxMsgs=3, MaxRestarts=0, MaxFaults=1, MaxCrashes=0)],
+    "faults": [dict(universe="u1", MaxMsgs=3, MaxRestarts=0, MaxFaults=1, MaxCrashes=0),
+               # the checkpoint-mismatch caller of rollBackToHeight (logs the error and carries on) with stored
+               # headers to remove, and rollbacks three blocks deep: store-rollback failures only
+               dict(universe="cpalt", MaxMsgs=3, MaxPeerEv=1, MaxRestarts=0, MaxFaults=1, MaxCrashes=0,
+                    FaultKinds=ROLLBACK_FAULTS),
+               dict(universe="deep", MaxMsgs=3, MaxRestarts=0, MaxFaults=1, MaxCrashes=0, FaultKinds=ROLLBACK_FAULTS)],
 }
 _COMMON_NOTE = ("Bounded: header universe of 10 (quick) / 13 (thorough) headers incl. forks below/at/above a checkpoint, "
                 "tie / heavier-by-one branches, an invalid header with a valid child; 2 peers; every connected batch of <= 3 "
@@ -80,6 +95,12 @@ ASSUMPTIONS = [
 ]
 
 
+C04_ASSUMPTIONS = [
+    "SyncPeerIsConnected: 'connected' is what the environment's own NewPeer/DonePeer steps say; a peer's messages are "
+    "handled only between its NewPeer and its DonePeer (a headers message still queued when the peer's DonePeer is "
+    "handled is outside this slice)",
+]
+
 _CP = {}
 
 
@@ -94,13 +115,18 @@ def label(a):
                 tag = ";xcp"
         if a.get("k") == 1:
             tag += ";writefails"
-        if a.get("k", 0) >= 10:
-            tag += ";crash-after-%d-store-calls" % (a["k"] - 10)
+        k = a.get("k", 0)
+        if 10 <= k < 20:
+            tag += ";crash-after-%d-store-calls" % (k - 10)
+        elif 20 < k < 30:
+            tag += ";blockstore-rollback-call-%d-fails" % (k - 20)
+        elif 30 < k < 40:
+            tag += ";filterstore-rollback-call-%d-fails" % (k - 30)
         s += "(p%d,%s%s)" % (a["p"], "-".join(str(x) for x in b), tag)
     elif s == "Inv":
         s += "(p%d,%s)" % (a["p"], a["batch"][0] if a["batch"] else "")
     elif s in ("NewPeer",):
-        s += "(p%d,h%d)" % (a["p"], a["k"])
+        s += "(p%d,h%d%s)" % (a["p"], a["k"], ",notfullnode" if a.get("nf") else "")
     elif s == "DonePeer":
         s += "(p%d)" % a["p"]
     elif s == "WriteCF":
@@ -118,6 +144,7 @@ def run_one(prop_id, cfg, rng, sc, replay=None):
     uni = bm_universe.UNIVERSES[uname]()
     consts = dict(cfg)
     consts.setdefault("MaxPeerEv", 0)
+    consts.setdefault("FaultKinds", ALL_FAULTS)
     consts.update(CODE_VERSION)
     _CP["ids"] = set(uni["checkpoints"].values())
     os.makedirs(sc)
@@ -174,6 +201,47 @@ def run_one(prop_id, cfg, rng, sc, replay=None):
         inits[d["id"]] = d.get("init")
     return dict(uname=uname, uni=uni, consts=consts, tlc=tlc, g=g, paths=paths, unreach=unreach,
                 observed=observed, verdict=verdict, drift=dr, inits=inits, skipped=skipped)
+
+
+def run_slice_c04(tier, seed, replay=None):
+    """Slice of C04 for the Client family's check: the BlockManager model over universe u1 (quick constants; thorough:
+    u1 with the full non-candidate peer dimension and a restart), every transition replayed on the real block manager,
+    judged for PROPS["C04"] (SyncPeerIsConnected).  Prints KNOWN-FINDING / VIOLATION lines for C04, writes its evidence
+    into a scratch directory (as headerstore.multi_store does for C08) and returns (exit code, coverage dict)."""
+    evdir = core.scratch("c04bm")
+    old = os.environ.get("VERIF_EVIDENCE_DIR")
+    os.environ["VERIF_EVIDENCE_DIR"] = evdir
+    try:
+        rc = run("C04", "c04thorough" if tier == "thorough" else "c04", seed, replay=replay)
+        cov = json.load(open(os.path.join(evdir, "C04.json")))["coverage"]
+    finally:
+        if old is None:
+            os.environ.pop("VERIF_EVIDENCE_DIR", None)
+        else:
+            os.environ["VERIF_EVIDENCE_DIR"] = old
+        shutil.rmtree(evdir, ignore_errors=True)
+    return rc, cov
+
+
+def merge_slice_c04(tier, seed, rc=0):
+    """Convenience for the C04 check (call it after the check has written evidence/C04.json): runs run_slice_c04 and
+    adds its measured coverage to that evidence file; returns max(rc, exit code of the slice)."""
+    t0 = time.time()
+    rc2, cov = run_slice_c04(tier, seed)
+    fn = os.path.join(os.environ.get("VERIF_EVIDENCE_DIR", os.path.join(core.VERIF, "evidence")), "C04.json")
+    ev = json.load(open(fn))
+    c = ev["coverage"]
+    c["sync_peer_slice_blockmanager"] = {k: v for k, v in cov.items() if k != "samples"}
+    for k in ("states", "transitions", "traces_validated_against_impl"):
+        c[k] = int(c.get(k, 0) or 0) + int(cov.get(k, 0) or 0)
+    c["samples"] = list(c.get("samples", [])) + cov.get("samples", [])[:1]
+    ev["assumptions"] = list(ev.get("assumptions", [])) + [a for a in ASSUMPTIONS + C04_ASSUMPTIONS
+                                                           if a not in ev.get("assumptions", [])]
+    ev["violations"] = ev.get("violations", 0) + int(cov.get("new_violations", 0) or 0)
+    ev["wall_s"] = round(ev.get("wall_s", 0) + time.time() - t0, 2)
+    json.dump(ev, open(fn + ".tmp", "w"), indent=1)
+    os.replace(fn + ".tmp", fn)
+    return max(rc, rc2)
 
 
 def run(prop_id, tier, seed, replay=None):
